@@ -28,15 +28,16 @@ type World struct {
 	Sep            string // emitted between two records (not after the last)
 	RecTexts       []string
 	// Logical records, their shape and the renderer (generated worlds only).
-	Shape     Shape
-	LRecs     []LRec
-	Render    func(LRec) string
-	CanDup    bool // Render honours LRec.Dup
-	encLatin1 bool // Input is the Latin-1 encoding of the texts
-	bom       bool // Input starts with a UTF-8 byte order mark
-	Ext       map[string]string
-	UsesJS    bool
-	Generated bool
+	Shape       Shape
+	LRecs       []LRec
+	Render      func(LRec) string
+	CanDup      bool // Render honours LRec.Dup
+	JSPoisonIdx int  // 1+index of the field whose value BoomValue makes a javascript declaration throw (0 = none)
+	encLatin1   bool // Input is the Latin-1 encoding of the texts
+	bom         bool // Input starts with a UTF-8 byte order mark
+	Ext         map[string]string
+	UsesJS      bool
+	Generated   bool
 	// Tags describe structural facts used by known-finding matchers and reach probes
 	// (e.g. "envelope=header_footer", "encoding=iso-8859-1", "bom").
 	Tags map[string]string
